@@ -62,7 +62,7 @@ fn all_ops() -> Vec<BinOp> {
     ARITH.iter().chain(CMPS.iter()).copied().collect()
 }
 
-pub const FLOATS: [&str; 12] = ["0.0", "0.1", "0.2", "0.5", "1.5", "3.25", "100.75", "16777216.0", "16777217.0", "0.000001", "123456789.125", "1000000.0"];
+pub const FLOATS: [&str; 15] = ["0.0", "0.1", "0.2", "0.5", "1.0", "1.5", "2.0", "3.25", "7.0", "100.75", "16777216.0", "16777217.0", "0.000001", "123456789.125", "1000000.0"];
 
 fn cases_list(tier: Tier) -> Vec<Value> {
     let mut v = Vec::new();
@@ -109,7 +109,9 @@ fn cases_list(tier: Tier) -> Vec<Value> {
     // floats
     for f32 in [true, false] {
         for op in ["add", "sub", "mul", "div", "lt", "eq"] {
-            v.push(json!({"kind": "float-pairs", "f32": f32, "op": op}));
+            for operands in ["runtime", "literal", "literal-left", "literal-right"] {
+                v.push(json!({"kind": "float-pairs", "f32": f32, "op": op, "operands": operands}));
+            }
         }
         v.push(json!({"kind": "float-print", "f32": f32}));
     }
@@ -319,15 +321,30 @@ fn build(case: &Value) -> Option<(Program, String, bool)> {
                 let (x, y) = (n.fresh("x"), n.fresh("y"));
                 let res = if is_cmp { bi("bool_to_string", vec![bin(op, v(x), v(y))]) } else { bi(tos, vec![bin(op, v(x), v(y))]) };
                 items.push(fn_def("apply", vec![(x, ft.clone()), (y, ft.clone())], Some(Ty::Str), res));
+                let operands = case["operands"].as_str().unwrap_or("runtime");
+                let (hx, hy) = (n.fresh("hx"), n.fresh("hy"));
                 for a in FLOATS {
                     for bb in FLOATS {
                         if op == BinOp::Div && bb == "0.0" {
                             continue;
                         }
-                        b.push(st(println(call("apply", vec![fl(a), fl(bb)]))));
+                        let wrap = |e: E| if is_cmp { bi("bool_to_string", vec![e]) } else { bi(tos, vec![e]) };
+                        match operands {
+                            "runtime" => b.push(st(println(call("apply", vec![fl(a), fl(bb)])))),
+                            // both operands written as literals in the expression itself
+                            "literal" => b.push(st(println(wrap(bin(op, fl(a), fl(bb)))))),
+                            "literal-left" => {
+                                b.push(let_t(hy, ft.clone(), fl(bb)));
+                                b.push(st(println(wrap(bin(op, fl(a), v(hy))))));
+                            }
+                            _ => {
+                                b.push(let_t(hx, ft.clone(), fl(a)));
+                                b.push(st(println(wrap(bin(op, v(hx), fl(bb))))));
+                            }
+                        }
                     }
                 }
-                site = format!("float-pairs;f32={};op={}", f32, opn);
+                site = format!("float-pairs;f32={};op={};operands={}", f32, opn, operands);
             }
         }
         _ => return None,
@@ -349,7 +366,7 @@ impl Family for Numbers {
         300
     }
     fn rule(&self) -> &'static str {
-        "literals: 8 integer types x 8 spellings {0,1,max-1,max,max+1,2max,30 digits,leading zeros} x {suffixed, under unary minus, plain/annotated for int32}, and all 256 values of int8/uint8; arithmetic: all pairs of a 14-value boundary set x {+,-,*,/,<,>,<=,>=,==,!=} for 8 integer types with run-time, literal and mixed operands; negation; division by zero; printing of every boundary value; all 65536 operand pairs of int8/uint8 per operator (thorough; quick: int8 + and uint8 <); float32/float64 over a 12-value set. oracle: accepted iff in range (typer diagnostic otherwise), printed values = wrapping/truncating reference arithmetic. non-trivial = programs whose reference output contains a wrapped, negative or boundary result; distinct = distinct source text"
+        "literals: 8 integer types x 8 spellings {0,1,max-1,max,max+1,2max,30 digits,leading zeros} x {suffixed, under unary minus, plain/annotated for int32}, and all 256 values of int8/uint8; arithmetic: all pairs of a 14-value boundary set x {+,-,*,/,<,>,<=,>=,==,!=} for 8 integer types with run-time, literal and mixed operands; negation; division by zero; printing of every boundary value; all 65536 operand pairs of int8/uint8 per operator (thorough; quick: int8 + and uint8 <); float32/float64 over a 15-value set (incl. whole numbers) with run-time, literal, literal-left and literal-right operands. oracle: accepted iff in range (typer diagnostic otherwise), printed values = wrapping/truncating reference arithmetic. non-trivial = programs whose reference output contains a wrapped, negative or boundary result; distinct = distinct source text"
     }
     fn cases(&self, tier: Tier) -> Box<dyn Iterator<Item = Value> + '_> {
         Box::new(cases_list(tier).into_iter())
